@@ -101,6 +101,11 @@ def as_lookup(X_, E, ctx=None):
         if idx[0] == 'zext' and idx[1] == 4:
             return (key, scale, idx[2], f'i32gather scale {scale}')
         return None
+    if t[0] == 'tbl16':
+        tab, ctl = t[1], t[2]
+        if all(x[0] == 'ld' for x in tab) and len({x[1] for x in tab}) == 1 and [x[2] for x in tab] == list(range(16)):
+            return (tab[0][1], 1, ctl, 'TBL on the 16 bytes loaded at the row pointer (index >= 16 gives 0; symbols are < K <= 16)')
+        return None
     if t[0] == 'lookup8':
         tab, ctl = t[1], t[2]
         if all(x[0] == 'ld' for x in tab) and len({x[1] for x in tab}) == 1 and [x[2] for x in tab] == list(range(16)):
